@@ -460,6 +460,9 @@ func (c *Ctx) runScript(ops []Op) []Outcome {
 		if d != nil && d.obj != "" {
 			ob = c.obj(op.O)
 		}
+		if len(ownedRing) > 0 {
+			c.verifyOwned("result-stability")
+		}
 		if d != nil && d.exec && ob != nil {
 			if !ob.dead {
 				if ob.execs > 0 {
@@ -485,10 +488,15 @@ func (c *Ctx) runScript(ops []Op) []Outcome {
 			out.freeze()
 			c.afterExec(ob, op)
 		} else {
-			c.keep(op, d, ob, &out)
-			out.freeze()
+			if op.has("scribble-res") {
+				out.freeze()
+				c.scribbleResults(&out)
+			} else {
+				c.keep(op, d, ob, &out)
+				out.freeze()
+			}
 		}
-		out.k64, out.kD = nil, nil
+		out.k64, out.kD, out.ko64, out.koD = nil, nil, nil, nil
 		outs[i] = out
 	}
 	class := "result-stability"
